@@ -32,11 +32,19 @@ CLAIM = dict(
     "writes of the code. The frame statements op_frame / op_preserves_args / chain_preserves_args hold BY CONSTRUCTION of this "
     "model (every returning call only allocates or writes cells it allocated) - they say nothing about the code unless the "
     "model is right. (2) What ties the model's write behaviour to the code: (a) source_write_sets - for the 43 DarSIA "
-    "functions the model stands for, the writes to caller-owned objects found in the SOURCE (AST, syntactic may-alias "
-    "analysis: attribute stores, augmented / item assignments, mutating method calls, out=, np.random.* calls, on parameters "
-    "and their aliases) are regenerated on every check and must equal the write sets the model declares (only append, "
-    "set_time, in-place to_trichromatic and Geometry.integrate's cache write, to self); returning_calls_have_no_source_writes, "
-    "no_global_rng_writes. A new in-place write in these functions breaks an obligation. (b) the identity-tracking program "
+    "functions the model stands for, a SYNTACTIC may-alias analysis of the source (AST) is regenerated on every check and must "
+    "equal the write sets the model declares (only append, set_time, in-place to_trichromatic and Geometry.integrate's cache "
+    "write, to self); returning_calls_have_no_source_writes, no_global_rng_writes. What the analysis sees: parameters (self "
+    "outside constructors) and names / attributes aliased to them by plain, tuple-wise or loop assignment, subscripts, "
+    "attributes, kwargs.get/pop, method- and function-style view calls (x.reshape, np.asarray(x), np.ravel(x), ...); writes = "
+    "attribute stores, augmented and item assignments, method-style mutators of lists / dicts / sets / arrays, function-style "
+    "mutators (np.copyto, np.put, np.place, random.shuffle, setattr, ...), calls of DarSIA's own self-mutating methods "
+    "(discovered over all methods of the image classes), out= arguments, calls into the global numpy and python random "
+    "modules. What it does NOT see: aliasing through containers built by calls, through closures / globals, through "
+    "functions outside the alias list, writes inside called helper functions, C-level in-place behaviour of library calls; "
+    "the analysis is validated on every run on nine toy functions with one in-place write each (and a clean one). A new "
+    "in-place write OF THESE SYNTACTIC FORMS in the covered functions breaks an obligation; others are left to (b) and the "
+    "oracle. (b) the identity-tracking program "
     "correspondence (31 statement kinds; values AND which image shares which buffer / list after every statement). (3) "
     "Theorems with content beyond construction: stack / append induction (stack_preserves_images, append_writes_only_self), "
     "result_fresh_or_documented_view (reachability from a result: new cells or documented shared cells), "
@@ -48,8 +56,11 @@ CLAIM = dict(
     "program statements that raise in most of their cases are reported as marks (not counted as passing). WF and Typed are "
     "preserved by every modelled call (step_preserves_wf_typed), so chain_preserves_intermediate gives the full reachability "
     "statement also for results created mid-chain and reused as arguments.",
-    note="frame theorems are definitional for the model; the load-bearing evidence is the generated source write-set table, the "
-    "identity-tracking correspondence and the snapshot oracle; sharing / later-write / stack theorems are genuine",
+    note="category 'proof' in the sense of the task (the deciding part is a theorem about the model plus a checked tie): the frame "
+    "theorems are definitional for the model, so the weight lies on the tie (generated source write-set table, identity-tracking "
+    "correspondence) and on the theorems that are NOT definitional: stack / append induction, reachability and sharing "
+    "(result_fresh_or_documented_view), later-write isolation, preservation of WF / Typed by all 23 calls, the write-set "
+    "obligation. Run-time RNG state and library values are observed only.",
     technique="Lean 4 proof (heap model; freshness and reachability invariants; induction over chains and over the list passed to "
     "stack) + G2 write-set table from the AST + G1 tabulated guard + differential correspondence with tracked identities + "
     "snapshot oracle",
@@ -95,10 +106,21 @@ def emit_guard(t):
 # ---------------------------------------------------------------------------------------------
 # G2: write sets of the source functions (AST)
 
-ALIAS_CALLS = {"get", "pop", "asarray", "view", "reshape", "squeeze", "ravel", "transpose"}
+# method-style calls whose result may alias the receiver (x.reshape(..), kwargs.get(..), ...)
+ALIAS_CALLS = {"get", "pop", "asarray", "view", "reshape", "squeeze", "ravel", "transpose", "swapaxes", "flatten_view", "T",
+               "astype_view", "diagonal", "setdefault", "items", "values", "__getitem__"}
+# function-style calls whose result may alias their FIRST argument (np.asarray(x), np.reshape(x, ..), ...)
+ALIAS_FUNCS = {"asarray", "asanyarray", "ascontiguousarray", "asfortranarray", "ravel", "reshape", "squeeze", "transpose",
+               "swapaxes", "moveaxis", "rollaxis", "expand_dims", "atleast_1d", "atleast_2d", "atleast_3d", "broadcast_to",
+               "flip", "flipud", "fliplr", "rot90", "diagonal", "real", "imag", "memoryview", "iter", "reversed", "getattr"}
+# method-style mutators of lists / dicts / sets / ndarrays
 MUT_METHODS = {"append", "extend", "insert", "pop", "remove", "sort", "reverse", "clear", "update", "fill", "resize",
-               "setdefault", "put", "itemset"}
-RNG_PURE = {"RandomState", "default_rng", "Generator", "get_state", "SeedSequence"}
+               "setdefault", "put", "itemset", "partition", "byteswap", "setflags", "setfield", "popitem", "add", "discard",
+               "appendleft", "extendleft", "__setitem__", "__iadd__", "__imul__"}
+# function-style mutators: the FIRST argument is written (np.copyto(dst, ..), random.shuffle(x), ...)
+MUT_FUNCS = {"copyto", "put", "place", "putmask", "fill_diagonal", "put_along_axis", "shuffle", "setattr", "delattr",
+             "heappush", "heappop", "insort"}
+RNG_PURE = {"RandomState", "default_rng", "Generator", "get_state", "SeedSequence", "Random", "SystemRandom", "getstate"}
 WATTRS = ["img", "series", "date", "time", "time_dim", "time_num", "color_space", "dimensions", "origin",
           "cached_voxel_volume", "set_time"]
 
@@ -117,6 +139,11 @@ def _root_path(e):
         elif isinstance(e, ast.Name):
             parts.append(e.id)
             return list(reversed(parts))
+        elif isinstance(e, ast.Call) and isinstance(e.func, ast.Attribute) and e.func.attr in ALIAS_FUNCS and e.args \
+                and isinstance(e.func.value, ast.Name) and e.func.value.id in ("np", "numpy"):
+            e = e.args[0]  # np.asarray(x, ...) and friends may return x itself / a view of it
+        elif isinstance(e, ast.Call) and isinstance(e.func, ast.Name) and e.func.id in ALIAS_FUNCS and e.args:
+            e = e.args[0]
         elif isinstance(e, ast.Call) and isinstance(e.func, ast.Attribute) and e.func.attr in ALIAS_CALLS:
             e = e.func.value
         elif isinstance(e, ast.Starred):
@@ -156,14 +183,22 @@ def write_set(fn, fresh_self=False, mutators=()):
 
     def scan(node):
         for n in ast.walk(node):
+            if isinstance(n, ast.Call):
+                fname = n.func.attr if isinstance(n.func, ast.Attribute) else (n.func.id if isinstance(n.func, ast.Name) else None)
+                # function-style mutators: np.copyto(dst, ..), random.shuffle(x), setattr(obj, ..)
+                if fname in MUT_FUNCS and n.args:
+                    r0 = aliased(_root_path(n.args[0]))
+                    if r0:
+                        record(r0, "call", fname)
             if isinstance(n, ast.Call) and isinstance(n.func, ast.Attribute):
                 pth = _root_path(n.func.value)
                 r = aliased(pth)
                 if r and (n.func.attr in MUT_METHODS or n.func.attr in mutators):
                     record(r, "call", n.func.attr)
                 fp = _root_path(n.func)
-                if fp and fp[:2] == ["np", "random"] and fp[-1] not in RNG_PURE:
-                    record("<global>", "rng", "other")
+                if fp and (fp[:2] in (["np", "random"], ["numpy", "random"]) or fp[0] == "random") and fp[-1] not in RNG_PURE \
+                        and len(fp) >= 2:
+                    record("<global>", "rng", "other")  # the global numpy / python generators
                 for kw in n.keywords:
                     if kw.arg == "out":
                         pr = aliased(_root_path(kw.value))
@@ -171,9 +206,13 @@ def write_set(fn, fresh_self=False, mutators=()):
                             record(pr, "out", "other")
 
     def assign(t, value, top):
-        if isinstance(t, ast.Tuple):
-            for e in t.elts:
-                assign(e, value, top)
+        if isinstance(t, (ast.Tuple, ast.List)):
+            if isinstance(value, (ast.Tuple, ast.List)) and len(value.elts) == len(t.elts):
+                for e, v in zip(t.elts, value.elts):  # a, b = x, y  : pairwise
+                    assign(e, v, top)
+            else:
+                for e in t.elts:  # a, b = f(..) / unpacking of an aliased container: each target may alias it
+                    assign(e, value, top)
             return
         val_alias = aliased(_root_path(value)) is not None if not isinstance(value, ast.Tuple) else False
         if isinstance(t, ast.Name):
@@ -266,18 +305,82 @@ def extract_write_sets(d):
     fns = source_functions(d)
     table = {}
     mut = set()
-    for name, fn, fs in fns:
-        w = call(lambda: write_set(fn, fs))
-        if not isinstance(w, Raised) and not fs and any(r == "self" for r, _, _ in w):
-            mut.add(fn.__name__)
+    # DarSIA's own self-mutating methods: every method of the image classes (not only the tabulated ones) that writes `self`
+    import inspect as _inspect
+
+    cands = [(fn.__name__, fn) for _, fn, fs in fns if not fs]
+    for cls in (d.Image, d.ScalarImage, d.OpticalImage):
+        cands += [(k, v) for k, v in vars(cls).items() if _inspect.isfunction(v) and k != "__init__"]
+    for _ in range(2):  # second pass: methods that call a mutator on self
+        for nm, fn in cands:
+            w = call(lambda: write_set(fn, False, mutators=mut))
+            if not isinstance(w, Raised) and any(r == "self" for r, _, _ in w):
+                mut.add(nm)
     for name, fn, fs in fns:
         table[name] = call(lambda: write_set(fn, fs, mutators=mut))
+    table["__mutators__"] = sorted(mut)
     return table
+
+
+def _toy_sources():
+    """functions with an in-place write each: the analysis must report every one of them (validated on every run)"""
+    import random
+
+    def t1(img, w):
+        a = np.asarray(img.img)
+        a *= w
+
+    def t2(img, w):
+        np.copyto(img.img, 0)
+
+    def t3(img, w):
+        random.shuffle(w)
+
+    def t4(img, w):
+        random.seed(1)
+
+    def t5(img, w):
+        img.update_metadata(name="x")
+
+    def t6(img, w):
+        a, b = img.img, w
+        a[...] = 0
+
+    def t7(img, w):
+        np.random.seed(3)
+
+    def t8(img, w):
+        v = np.reshape(img.img, -1)
+        v.sort()
+
+    def t9(img, w):
+        for x in w:
+            x.append(1)
+
+    def clean(img, w):
+        a = img.img.copy()
+        a *= 2
+        b = np.array(img.img)
+        b[...] = 0
+        return type(img)(a, **img.metadata())
+
+    return [t1, t2, t3, t4, t5, t6, t7, t8, t9], clean
+
+
+def validate_write_set_analysis(ctx, mutators):
+    toys, clean = _toy_sources()
+    missed = [f.__name__ for f in toys if not call(lambda: write_set(f, False, mutators=mutators))]
+    false_pos = call(lambda: write_set(clean, False, mutators=mutators))
+    ctx.cov["write_set_self_test"] = {"toys": len(toys), "missed": missed, "false_positive_on_clean": bool(false_pos)}
+    if missed or false_pos:
+        ctx.mark("TIE-BROKEN", {"write_set_analysis_self_test": {"missed": missed, "false_positive": repr(false_pos)}})
 
 
 def emit_write_sets(table):
     L = ["import DarsiaModel.Heap", "namespace Darsia.Gen", "open Darsia Darsia.Heap", "", "def writeSet : SrcFn → List SrcWrite"]
     for name, w in table.items():
+        if name.startswith("__"):
+            continue
         if isinstance(w, Raised):  # source not analysable: an unknown write makes the obligation fail
             L.append(f"  | .{name} => [⟨.arg, .call, .other⟩]")
         else:
@@ -939,7 +1042,7 @@ def registry(d):
         b = twin(ctx, d, a)
         return (lambda: a - b), [a, b]
 
-    for tag in ["int", "float", "bool", "npFloat64", "npFloat32", "npInt64"]:
+    for tag in ["int", "float", "bool", "npFloat64", "npFloat32", "npInt64", "npUint8"]:
         def mk(tag):
             def f(ctx, a):
                 s = tag_value(tag, ctx.rng.choice([2, 3]))
@@ -950,7 +1053,7 @@ def registry(d):
                 return (lambda: s * a), [a, s]
             return f, g
         f, g = mk(tag)
-        R[f"mul[{tag}]"] = (NUMERIC if tag in ("int", "bool", "npInt64") else ["S2", "S2f32", "V2", "S2s", "S3", "S1", "O2f32", "S2u8", "S2u16"], f)
+        R[f"mul[{tag}]"] = (NUMERIC if tag in ("int", "bool", "npInt64", "npUint8") else ["S2", "S2f32", "V2", "S2s", "S3", "S1", "O2f32", "S2u8", "S2u16"], f)
         R[f"rmul[{tag}]"] = (["S2", "S2f32", "S3"], g)
     for k, fn in CMPS.items():
         def mk(k, fn):
@@ -1465,10 +1568,51 @@ def oracle(ctx, d):
 
 
 def replay(data):
-    print("property C17 replay")
-    for k in ("signature", "what"):
-        print(f"  {k}: {data.get(k)}")
-    print("  input:", {k: v for k, v in data.get("replay", {}).items()})
+    """re-execute the stored case on the implementation: the failing case is regenerated deterministically from the stored
+    seed and tier (the whole generation stream of that tier is replayed, Lean proofs are skipped), the oracle is evaluated
+    again and the observed outcome is printed next to the stored one. Exit code 1 = reproduced, 0 = not reproduced."""
+    import shutil
+
+    from ..lib import core
+
+    sig = data.get("signature")
+    rep = data.get("replay") or {}
+    print(f"property C17 replay")
+    print(f"  stored signature: {sig}")
+    print(f"  stored finding  : {data.get('what')}")
+    if "verif_seed" not in rep:
+        print("  no failing input stored (proof / tie / correspondence break):", [m.get("kind") for m in data.get("no_longer_checks", data.get("marks", []))])
+        return 0
+    print(f"  stored input    : { {k: v for k, v in rep.items() if k not in ('before', 'after')} }")
+
+    class RCtx(core.Ctx):
+        def prove(self, *a, **k):  # the Lean side is not part of a replay
+            pass
+
+        def write_gen(self, *a, **k):
+            return False
+
+        def log(self, *a):
+            pass
+
+    ctx = RCtx("C17", rep.get("tier", "quick"), int(rep["verif_seed"]), LEVEL)
+    try:
+        run(ctx)
+    finally:
+        shutil.rmtree(ctx._tmp, ignore_errors=True)
+    hits = [f for f in ctx.failures if f["signature"] == sig] + [h for h in ctx.known_hits if h["signature"] == sig]
+    if hits:
+        h = hits[0]
+        print("  REPRODUCED on the current implementation:")
+        print(f"    observed: {h.get('what')}")
+        if "replay" in h:
+            print(f"    input   : { {k: v for k, v in h['replay'].items() if k not in ('before', 'after')} }")
+            for k in ("before", "after", "observed", "required"):
+                if k in h["replay"]:
+                    print(f"    {k:8}: {str(h['replay'][k])[:300]}")
+        return 1
+    others = sorted({f["signature"] for f in ctx.failures})
+    print("  not reproduced on the current implementation (the required behaviour holds for the regenerated case)" + (f"; other failures now: {others[:5]}" if others else ""))
     return 0
 
 
@@ -1482,7 +1626,10 @@ def run(ctx):
     ctx.write_gen("MulGuard", emit_guard(t))
     ws = extract_write_sets(d)
     ctx.write_gen("WriteSets", emit_write_sets(ws))
-    ctx.cov["source_write_sets"] = {k: (repr(v) if isinstance(v, Raised) else [list(x) for x in v]) for k, v in ws.items() if isinstance(v, Raised) or v}
+    ctx.cov["source_write_sets"] = {k: (repr(v) if isinstance(v, Raised) else [list(x) for x in v]) for k, v in ws.items()
+                                    if not k.startswith("__") and (isinstance(v, Raised) or v)}
+    ctx.cov["darsia_self_mutating_methods"] = ws.get("__mutators__", [])
+    validate_write_set_analysis(ctx, set(ws.get("__mutators__", [])))
     ctx.cov["generated_tables"] = {"mulGuard": {k: repr(v) if isinstance(v, Raised) else "ok" for k, v in t.items()}}
     ctx.prove("C17")
     # the guard of the documented types, stated on the implementation
